@@ -36,6 +36,12 @@ impl<T: ?Sized> Mutex<T> {
         self.data.get_mut()
     }
 }
+impl<T: ?Sized> Drop for MutexGuard<'_, T> {
+    /// unlock: kept as an explicit (empty) destructor so that the release point of every guard
+    /// is visible as a `drop(_guard)` terminator in the MIR read by mirsym
+    #[inline(never)]
+    fn drop(&mut self) {}
+}
 impl<T: ?Sized> Deref for MutexGuard<'_, T> {
     type Target = T;
     fn deref(&self) -> &T {
